@@ -152,6 +152,11 @@ def gen_case(rng, max_cells=6):
                 asm.arcs.append([ci, c1, c2, off])
         if asm.arcs:
             asm.mode += "+arcs"
+    if rng.random() < 0.3:
+        nv = 4 * (len(cells) + 1)   # a lower bound of the number of vertices
+        for vi in rng.sample(range(nv), min(nv, rng.randint(1, 4))):
+            asm.moves.append([vi, [rng.choice([-0.125, -0.0625, 0.0625, 0.125, 0.25]) for _ in range(3)]])
+        asm.mode += "+moved"
     return asm
 
 
@@ -190,6 +195,11 @@ def run_impl(asm, workdir, prio=None):
     with warnings.catch_warnings():
         warnings.simplefilter("ignore")
         mesh.assemble()
+    # vertices moved after assembly (what an optimizer does): every wire is graded on the length it has when the mesh is written
+    for vi, d in getattr(asm, "moves", []):
+        vs = mesh.vertex_list.vertices
+        if vi < len(vs):
+            vs[vi].move_to([float(vs[vi].position[k]) + d[k] for k in range(3)])
     if prio:
         label = gc.reorder_containers(mesh, prio)
     else:
